@@ -11,6 +11,7 @@ import (
 // O4 for AddLiquidity on an existing, non-empty pool: S'*T'*L^2 >= S*T*L'^2.
 // Reserves and share supply are independent (donations allowed).
 func VerifC01_AddLiquidity() {
+	verifExpect("accepted", "rejected")
 	e := newCsEnv(true)
 	one := big.NewInt(1)
 	w := verifPow2(64)
@@ -48,4 +49,203 @@ func VerifC01_AddLiquidity() {
 	rhs := verifMul(S0, T0, L1, L1)
 	verifAssert(lhs.Cmp(rhs) >= 0, "O4 share value never falls (add)")
 	verifAssert(L1.Cmp(L0) >= 0 && S1.Cmp(S0) >= 0 && T1.Cmp(T0) >= 0, "add only adds")
+}
+
+// O4 for RemoveLiquidity: proportional withdrawal rounds in the pool's favour.
+func VerifC01_RemoveLiquidity() {
+	verifExpect("accepted", "rejected")
+	e := newCsEnv(true)
+	one := big.NewInt(1)
+	w := verifPow2(64)
+	if verifTier() == 1 {
+		w = verifPow2(100)
+	}
+	S := verifIntIn("S", one, w)
+	T := verifIntIn("T", one, w)
+	L := verifIntIn("L", one, w)
+	pool := e.seedPool("btc", S, T, L)
+	burn := verifIntIn("burn", one, w)
+	// the sender owns part of the share supply
+	own := verifIntIn("own", big.NewInt(0), w)
+	verifAssume(own.BigInt().Cmp(L.BigInt()) <= 0)
+	e.bank.set(e.holder, pool.LptDenom, L.Sub(own))
+	e.bank.set(e.sender, pool.LptDenom, own)
+	msg := &types.MsgRemoveLiquidity{
+		WithdrawLiquidity: sdk.Coin{Denom: pool.LptDenom, Amount: burn},
+		MinToken:          verifIntIn("minTok", big.NewInt(0), w),
+		MinStandardAmt:    verifIntIn("minStd", big.NewInt(0), w),
+		Deadline:          100,
+		Sender:            e.sender.String(),
+	}
+	verifAssume(msg.ValidateBasic() == nil)
+	S0, T0, L0 := e.reserves(pool)
+	err, panicked := e.verifDeliver(func() error { _, err := e.k.RemoveLiquidity(e.ctx, msg); return err })
+	S1, T1, L1 := e.reserves(pool)
+	if err != nil {
+		if panicked {
+			verifCover("aborted-by-panic")
+		} else {
+			verifCover("rejected")
+		}
+		verifAssert(S1.Cmp(S0) == 0 && T1.Cmp(T0) == 0 && L1.Cmp(L0) == 0, "O5 failed op leaves pool unchanged")
+		return
+	}
+	verifCover("accepted")
+	verifAssert(verifMul(S1, T1, L0, L0).Cmp(verifMul(S0, T0, L1, L1)) >= 0, "O4 share value never falls (remove)")
+	// each reserve separately: S1/L1 >= S0/L0
+	verifAssert(verifMul(S1, L0).Cmp(verifMul(S0, L1)) >= 0, "standard reserve per share never falls (remove)")
+	verifAssert(verifMul(T1, L0).Cmp(verifMul(T0, L1)) >= 0, "token reserve per share never falls (remove)")
+	verifAssert(verifSub(L0, L1).Cmp(burn.BigInt()) == 0, "exactly the requested shares are burned")
+}
+
+// O4 for AddUnilateralLiquidity (Int.Sqrt through the r^2<=x<(r+1)^2 axiom).
+func VerifC01_AddUnilateral() {
+	verifExpect("accepted", "rejected")
+	e := newCsEnv(true)
+	one := big.NewInt(1)
+	w := verifPow2(40)
+	if verifTier() == 1 {
+		w = verifPow2(64)
+	}
+	S := verifIntIn("S", one, w)
+	T := verifIntIn("T", one, w)
+	L := verifIntIn("L", one, w)
+	pool := e.seedPool("btc", S, T, L)
+	denom := "btc"
+	if verifChoice("side", 2) == 1 {
+		denom = csStd
+	}
+	amt := verifIntIn("amt", one, w)
+	e.bank.fund(e.sender, denom, verifIntIn("bal", big.NewInt(0), verifPow2(66)))
+	msg := &types.MsgAddUnilateralLiquidity{
+		CounterpartyDenom: "btc",
+		ExactToken:        sdk.Coin{Denom: denom, Amount: amt},
+		MinLiquidity:      verifIntIn("minLiq", big.NewInt(0), w),
+		Deadline:          100,
+		Sender:            e.sender.String(),
+	}
+	verifAssume(msg.ValidateBasic() == nil)
+	S0, T0, L0 := e.reserves(pool)
+	err, panicked := e.verifDeliver(func() error { _, err := e.k.AddUnilateralLiquidity(e.ctx, msg); return err })
+	S1, T1, L1 := e.reserves(pool)
+	if err != nil {
+		if panicked {
+			verifCover("aborted-by-panic")
+		} else {
+			verifCover("rejected")
+		}
+		verifAssert(S1.Cmp(S0) == 0 && T1.Cmp(T0) == 0 && L1.Cmp(L0) == 0, "O5 failed op leaves pool unchanged")
+		return
+	}
+	verifCover("accepted")
+	verifAssert(verifMul(S1, T1, L0, L0).Cmp(verifMul(S0, T0, L1, L1)) >= 0, "O4 share value never falls (add unilateral)")
+}
+
+// O4 for RemoveUnilateralLiquidity.
+func VerifC01_RemoveUnilateral() {
+	verifExpect("accepted", "rejected")
+	e := newCsEnv(true)
+	one := big.NewInt(1)
+	w := verifPow2(40)
+	if verifTier() == 1 {
+		w = verifPow2(64)
+	}
+	S := verifIntIn("S", one, w)
+	T := verifIntIn("T", one, w)
+	L := verifIntIn("L", one, w)
+	pool := e.seedPool("btc", S, T, L)
+	denom := "btc"
+	if verifChoice("side", 2) == 1 {
+		denom = csStd
+	}
+	burn := verifIntIn("burn", one, w)
+	own := verifIntIn("own", big.NewInt(0), w)
+	verifAssume(own.BigInt().Cmp(L.BigInt()) <= 0)
+	e.bank.set(e.holder, pool.LptDenom, L.Sub(own))
+	e.bank.set(e.sender, pool.LptDenom, own)
+	msg := &types.MsgRemoveUnilateralLiquidity{
+		CounterpartyDenom: "btc",
+		MinToken:          sdk.Coin{Denom: denom, Amount: verifIntIn("minTok", big.NewInt(0), w)},
+		ExactLiquidity:    burn,
+		Deadline:          100,
+		Sender:            e.sender.String(),
+	}
+	verifAssume(msg.ValidateBasic() == nil)
+	S0, T0, L0 := e.reserves(pool)
+	err, panicked := e.verifDeliver(func() error { _, err := e.k.RemoveUnilateralLiquidity(e.ctx, msg); return err })
+	S1, T1, L1 := e.reserves(pool)
+	if err != nil {
+		if panicked {
+			verifCover("aborted-by-panic")
+		} else {
+			verifCover("rejected")
+		}
+		verifAssert(S1.Cmp(S0) == 0 && T1.Cmp(T0) == 0 && L1.Cmp(L0) == 0, "O5 failed op leaves pool unchanged")
+		return
+	}
+	verifCover("accepted")
+	verifAssert(verifMul(S1, T1, L0, L0).Cmp(verifMul(S0, T0, L1, L1)) >= 0, "O4 share value never falls (remove unilateral)")
+}
+
+// O1 + O4 for single-pool swaps through Keeper.Swap (both order kinds, both directions),
+// measured on the balances actually moved.
+func VerifC01_SwapKeeper() {
+	verifExpect("accepted", "rejected")
+	e := newCsEnv(true)
+	one := big.NewInt(1)
+	w := verifPow2(64)
+	if verifTier() == 1 {
+		w = verifPow2(100)
+	}
+	S := verifIntIn("S", one, w)
+	T := verifIntIn("T", one, w)
+	L := verifIntIn("L", one, w)
+	pool := e.seedPool("btc", S, T, L)
+	inDenom, outDenom := csStd, "btc"
+	if verifChoice("dir", 2) == 1 {
+		inDenom, outDenom = "btc", csStd
+	}
+	buy := verifChoice("buy", 2) == 1
+	inAmt := verifIntIn("in", one, w)
+	outAmt := verifIntIn("out", one, w)
+	e.bank.fund(e.sender, inDenom, verifIntIn("bal", big.NewInt(0), verifPow2(102)))
+	msg := &types.MsgSwapOrder{
+		Input:      types.Input{Address: e.sender.String(), Coin: sdk.Coin{Denom: inDenom, Amount: inAmt}},
+		Output:     types.Output{Address: e.sender.String(), Coin: sdk.Coin{Denom: outDenom, Amount: outAmt}},
+		Deadline:   100,
+		IsBuyOrder: buy,
+	}
+	verifAssume(msg.ValidateBasic() == nil)
+	S0, T0, L0 := e.reserves(pool)
+	fee := e.k.GetParams(e.ctx).Fee.BigInt()
+	err, panicked := e.verifDeliver(func() error { return e.k.Swap(e.ctx, msg) })
+	S1, T1, L1 := e.reserves(pool)
+	if err != nil {
+		if panicked {
+			verifCover("aborted-by-panic")
+		} else {
+			verifCover("rejected")
+		}
+		verifAssert(S1.Cmp(S0) == 0 && T1.Cmp(T0) == 0 && L1.Cmp(L0) == 0, "O5 failed op leaves pool unchanged")
+		return
+	}
+	verifCover("accepted")
+	verifAssert(L1.Cmp(L0) == 0, "swap does not change share supply")
+	verifAssert(verifMul(S1, T1).Cmp(verifMul(S0, T0)) >= 0, "O4 constant product never falls (swap)")
+	rin0, rout0, rin1, rout1 := S0, T0, S1, T1
+	if inDenom == "btc" {
+		rin0, rout0, rin1, rout1 = T0, S0, T1, S1
+	}
+	paid, received := verifSub(rin1, rin0), verifSub(rout0, rout1)
+	e18 := verifPow10(18)
+	n := verifSub(e18, fee)
+	lhs := verifMul(verifAdd(verifMul(rin0, e18), verifMul(n, paid)), verifSub(rout0, received))
+	verifAssert(lhs.Cmp(verifMul(rin0, rout0, e18)) >= 0, "O1 fee-inclusive constant product on moved balances")
+	if buy {
+		verifAssert(received.Cmp(outAmt.BigInt()) == 0, "buy order delivers exactly the requested output")
+		verifAssert(paid.Cmp(inAmt.BigInt()) <= 0, "buy order pays at most the stated maximum")
+	} else {
+		verifAssert(paid.Cmp(inAmt.BigInt()) == 0, "sell order takes exactly the stated input")
+		verifAssert(received.Cmp(outAmt.BigInt()) >= 0, "sell order delivers at least the stated minimum")
+	}
 }
